@@ -57,11 +57,22 @@ def t_contract(sess, fn, per_condition_s):
     line = inspect.getsourcelines(getattr(c16, fn))[1] + 1  # a line inside the def selects that function
     cmd = [sys.executable, "-m", "crosshair", "check", "--report_all", "--per_condition_timeout", str(per_condition_s), f"vf/ch/c16.py:{line}"]
     t0 = time.time()
-    try:
-        p = subprocess.run(cmd, capture_output=True, text=True, env=env, cwd=here, timeout=per_condition_s * 3 + 120)
-        out = p.stdout + p.stderr
-    except subprocess.TimeoutExpired as e:
-        out = (e.stdout or "") + "\ninfo: Not confirmed. (process timeout)"
+
+    def run_crosshair(budget):
+        c = list(cmd)
+        c[c.index("--per_condition_timeout") + 1] = str(budget)
+        try:
+            p = subprocess.run(c, capture_output=True, text=True, env=env, cwd=here, timeout=budget * 3 + 120)
+            return p.stdout + p.stderr
+        except subprocess.TimeoutExpired as e:
+            return (e.stdout or "") + "\ninfo: Not confirmed. (process timeout)"
+
+    out = run_crosshair(per_condition_s)
+    if fn not in HEAVY and "Confirmed over all paths" not in out and not re.search(r"error: .*? when calling ", out):
+        # CrossHair's budget is wall-clock: on a loaded machine a contract that normally takes 10-60 s can run out of
+        # time. One retry with three times the budget; still only "Confirmed over all paths" passes.
+        sess.notes.append(f"crosshair[{fn}]: not confirmed within {per_condition_s} s, retried with {3 * per_condition_s} s")
+        out = run_crosshair(3 * per_condition_s)
     dt = time.time() - t0
     name = f"crosshair[{fn}]: contract holds for all inputs within the stated bounds"
     verdict, call = "unknown", None
